@@ -881,9 +881,7 @@ func sameTypeMethodAssert(p *core.Program, ta *ssa.TypeAssert) (bool, string) {
 // ------------------------------------------------------------------------------------------------------ R5
 
 // frozen table: constant-offset string slicing sites that are safe for a reason the guard matcher cannot see
-var c04SliceAllowed = map[string]string{
-	"(*excellent.visitor).VisitTextLiteral/[1:]": "fallback for a TEXT token whose Unquote failed: a TEXT token always starts and ends with a double quote (lexer rule '\"' ... '\"'), so len >= 2",
-}
+var c04SliceAllowed = map[string]string{}
 
 func c04R5(p *core.Program, r *core.Report, fns []*ssa.Function, rule string, allowed map[string]string) int {
 	n := 0
@@ -900,6 +898,10 @@ func c04R5(p *core.Program, r *core.Report, fns []*ssa.Function, rule string, al
 			}
 			if g := lengthGuard(site); g != "" {
 				r.OK(rule, key, p.Pos(site.instr.Pos()), "guarded: "+g)
+				continue
+			}
+			if lb, why := tokenTextFor(p).lowerBound(site.base, 0); lb >= site.need {
+				r.OK(rule, key, p.Pos(site.instr.Pos()), fmt.Sprintf("len >= %d: %s", lb, why))
 				continue
 			}
 			if reason, ok := allowed[key]; ok {
@@ -919,6 +921,7 @@ var c04IndexAllowed = map[string]string{
 
 func constIndexRule(p *core.Program, r *core.Report, fns []*ssa.Function, rule string, allowed map[string]string, skipArgs bool) int {
 	installRegexpResolver(p)
+	tokenTextFor(p)
 	n := 0
 	per := map[string]int{}
 	for _, fn := range fns {
@@ -966,7 +969,6 @@ var c04VarIndexAllowed = map[string]string{
 	"excellent/functions.ReadChars/high#1":           "same slice as low#1: i+3 <= length (runes) <= len (bytes)",
 	"excellent/functions.ReadChars/low#2":            "val.Native()[i:i+4] in the length%4 == 0 loop: as low#1 with 4",
 	"excellent/functions.ReadChars/high#2":           "same slice as low#2",
-	"(*excellent.visitor).VisitTextLiteral/high#1":   "value[1:len(value)-1] on the text of a TEXT token: the lexer rule starts and ends with a quote, so len(value) >= 2",
 	"(*excellent.xinput).read/index#1":               "unreadRunes[unreadCount-1] under unreadCount > 0; unreadCount never exceeds the 4 slots (see unread)",
 	"(*excellent.xinput).unread/index#1":             "unreadRunes has 4 slots and the scanner pushes back at most two runes between reads (scanBody: the character after '@' and the '@'; C12/R2 evaluates every such case): 0 <= unreadCount <= 2 < 4",
 	"(*excellent.AnonFunction).Evaluate/index#2":     "args[i] for i ranging over x.Args inside a closure that is only reachable through functions.NumArgsCheck(len(x.Args), fn), which rejects any other number of arguments (checked by R3's wrapper rule)",
@@ -978,6 +980,7 @@ var c04VarIndexAllowed = map[string]string{
 }
 
 func varIndexRule(p *core.Program, r *core.Report, fns []*ssa.Function, rule string, allowed map[string]string) int {
+	tokenTextFor(p)
 	n := 0
 	per := map[string]int{}
 	fwd := forwardedIndexParams(fns)
